@@ -228,6 +228,7 @@ RULES = [
     ("X-CONFIG", "a setting read from both configurations is the user's value when present, the built-in default otherwise [shared]", lambda ctx: __import__("extra2").user_config_wins(ctx)),
     ("X-PIPELINE", "archive members go through the per-entry pipeline with their own record (filter, count, row, sort keys) [shared]", lambda ctx: __import__("cfile").pipeline(ctx)),
     ("X-ROOTS", "root options: defaults, per-root binding, options kept when a regexp root is expanded (archives, symlinks, depth window) [shared]", lambda ctx: __import__("extra").root_defaults(ctx)),
+    ("C04-R3", "permission / file-type columns of a member come from the member's own stored mode (check_file_mode on entry / member with / without mode) [shared with C04]", lambda ctx: __import__("c04").r3(ctx)),
 ]
 
 EXPLANATION = (
